@@ -72,6 +72,10 @@ type Engines struct {
 	Measure, Stream, Trace bool
 }
 
+// TraceMergeConcurrency and TraceSamplerSlots size the trace package's two process-global semaphores, which
+// Boot re-creates inside the bubble (see trace.VerifResetGlobalChannels); 0 keeps the engine's sizing (CPUs).
+var TraceMergeConcurrency, TraceSamplerSlots int
+
 // Boot starts a standalone node on dir. flags are "--name=value" strings; each is applied to the unit
 // that defines it (unknown flags are an error). Must be called inside the bubble.
 func Boot(repo *simmeta.Repo, dir string, eng Engines, flags []string) (*Node, error) {
@@ -92,6 +96,7 @@ func Boot(repo *simmeta.Repo, dir string, eng Engines, flags []string) (*Node, e
 		n.units = append(n.units, n.Stream)
 	}
 	if eng.Trace {
+		trace.VerifResetGlobalChannels(TraceMergeConcurrency, TraceSamplerSlots)
 		if n.Trace, err = trace.NewService(repo, pipeline, omr, pm); err != nil {
 			return nil, err
 		}
